@@ -1006,6 +1006,9 @@ class ConsumeRule:
         self.last_match = False         # the last accepting transition in list order wins
         self.copies_predicates = False  # predicates are deep-copied per Pattern instance
         self.order_dependent = []       # scenarios whose outcome depends on the order of the transition list
+        self.history_dependent = []     # scenarios whose outcome depends on an earlier attempt over the same automaton
+        self.history_scenarios = 0
+        self.history_unknown = None
         self.other = []                 # scenarios that fit none of the recognised selection rules
         self.scenarios = 0
         self.fi = None
@@ -1066,7 +1069,7 @@ def consume_rule(prj: Project) -> ConsumeRule:
         return None
     classed = [False]
 
-    def scenario(order, opens, accepts):
+    def scenario(order, opens, accepts, before=None):
         P = {i: Sym(f"P{i}") for i in (1, 2)}
         if classed[0]:
             # the predicates are instances of a group-predicate class of the repo (questions about their class are answered by
@@ -1149,12 +1152,28 @@ def consume_rule(prj: Project) -> ConsumeRule:
                 raise Unknown("copy of a non-predicate")
             return NotImplemented
         it = MiniInterp(prj, hook)
-        try:
-            me = it.construct(cls, [0, dfa], {}, None, fi)
-            if it.getattr(me, "state", fi, None) is not state:
-                raise Unknown("the constructed pattern does not start in the automaton's start state")
-        except (Unknown, PyRaise):
-            me = Sym("pattern", _cls=cls, state=state, tokens=[], predicate_map={}, start=0, end=0, automata=dfa)
+
+        def new_pattern():
+            try:
+                m_ = it.construct(cls, [0, dfa], {}, None, fi)
+                if it.getattr(m_, "state", fi, None) is not state:
+                    raise Unknown("the constructed pattern does not start in the automaton's start state")
+            except (Unknown, PyRaise):
+                m_ = Sym("pattern", _cls=cls, state=state, tokens=[], predicate_map={}, start=0, end=0, automata=dfa)
+            return m_
+        if before is not None:
+            # another attempt over the same automaton consumed an item first (its own copies answer as `before` says)
+            want_opens, want_accepts = dict(opens), dict(accepts)
+            opens.update(before[0])
+            accepts.update(before[1])
+            me = new_pattern()
+            try:
+                it.call(fi, [Sym("item0")], {}, self_obj=me)
+            except PyRaise:
+                pass
+            opens.update(want_opens)
+            accepts.update(want_accepts)
+        me = new_pattern()
         try:
             v = it.call(fi, [item], {}, self_obj=me)
         except PyRaise as e:
@@ -1193,6 +1212,25 @@ def consume_rule(prj: Project) -> ConsumeRule:
         raise AnalysisError(f"{fi.disp}: cannot evaluate the selection rule of Pattern.consume ({e})")
     r.scenarios = len(outcomes)
     r.copies_predicates = not shared_calls
+    # an attempt's outcome must not depend on what another attempt over the same automaton did before it (find_all runs many
+    # attempts on one automaton): every scenario again, after another pattern consumed an item in every scenario
+    r.history_dependent = []
+    r.history_scenarios = 0
+    if not shared_calls:
+        n_shared = len(shared_calls)
+        try:
+            combos = [(o1, o2, a1, a2) for o1 in (False, True) for o2 in (False, True) for a1 in (False, True) for a2 in (False, True)]
+            for b in combos:
+                for a in combos:
+                    r.history_scenarios += 1
+                    out = scenario((1, 2), {1: a[0], 2: a[1]}, {1: a[2], 2: a[3]}, before=({1: b[0], 2: b[1]}, {1: b[2], 2: b[3]}))
+                    if out != outcomes[((1, 2),) + a]:
+                        r.history_dependent.append(f"open={a[:2]} accept={a[2:]}: {outcomes[((1, 2),) + a]} for a fresh automaton, {out} after another attempt on the "
+                                                   f"same automaton consumed an item with open={b[:2]} accept={b[2:]}")
+        except Unknown as e:
+            r.history_scenarios = 0
+            r.history_unknown = str(e)
+        del shared_calls[n_shared:]
     r.shared_calls = shared_calls
     for (order, o1, o2, a1, a2), out in outcomes.items():
         if order == (1, 2) and outcomes[((2, 1), o1, o2, a1, a2)] != out:
